@@ -1,0 +1,51 @@
+//go:build verif
+// +build verif
+
+package explore
+
+// Machine-checked contracts for the explorer (read by /verif/engine, see /verif/DESIGN.md).
+// This file contains comments only and is excluded from every normal build by the tag "verif".
+
+/*@
+// probes handed to the workers: number of sends on the needExplore channel and the last entry sent
+ghost global gProbeSends int
+ghost global gLastProbeSent ref
+on send Explore.needExplore(e, v)
+   do gProbeSends = gProbeSends + 1
+   do gLastProbeSent = v
+
+// the result of the last probe performed by the explore function
+ghost global gLastProbe ref[tkestack.io/kvass/pkg/scrape.StatisticsSeriesResult]
+contract field Explore.explore(log, scrapeInfo, url)
+  ensures result1 == nil ==> result0 != nil && result0 == gLastProbe && result0.ScrapedTotal >= toreal(0) && result0.Total >= toreal(0)
+  modifies gLastProbe, tkestack.io/kvass/pkg/scrape.StatisticsSeriesResult.* at {}
+
+contract target.Target.URL
+  requires t != nil && cfg != nil
+  ensures result != nil
+  modifies net/url.URL.* at {}
+
+// "Every discovered target is probed once it is first asked for ... at most one probe per target is in flight" (C20):
+// a known target that is not being explored is handed to the workers exactly once and marked; one that is already
+// being explored is not handed over again; an unknown hash yields nothing
+contract Explore.Get
+  requires e != nil && (forall h, x in e.targets :: x != nil)
+  ensures[C20] @unknown_target_is_not_probed !(hash in e.targets) ==> result == nil && gProbeSends == old(gProbeSends)
+  ensures[C20] @first_ask_starts_exactly_one_probe (hash in e.targets && !old(e.targets[hash].exploring)) ==>
+        (gProbeSends == old(gProbeSends) + 1 && gLastProbeSent == e.targets[hash] && e.targets[hash].exploring)
+  ensures[C20] @no_second_probe_while_one_is_pending (hash in e.targets && old(e.targets[hash].exploring)) ==> gProbeSends == old(gProbeSends)
+  ensures hash in e.targets ==> result == e.targets[hash].rt
+  modifies exploringTarget.exploring, gProbeSends, gLastProbeSent
+
+// "The sample counts of the successful probe (before and after metric relabeling) become the target's load estimate";
+// a failed probe must not leave the status looking like a successful one (its estimate would be used for assignment)
+contract Explore.exploreOnce
+  requires e != nil && t != nil && t.rt != nil && t.target != nil && e.scrapeManager != nil && e.explore != nil && wfWindow(t.rt)
+  requires forall j, inf in e.scrapeManager.jobs :: inf != nil ==> inf.Config != nil
+  ensures[C20] @failed_probe_is_not_reported_good err != nil ==> t.rt.Health != "up"
+  ensures[C20] @successful_probe_is_reported_good err == nil ==> t.rt.Health == "up"
+  ensures[C20] @estimate_is_the_successful_probe err == nil ==> (t.target.Series == toint(gLastProbe.ScrapedTotal) && t.target.TotalSeries == toint(gLastProbe.Total)
+        && t.rt.TotalSeries == toint(gLastProbe.Total))
+  modifies target.ScrapeStatus.* at {t.rt}, target.Target.Series at {t.target}, target.Target.TotalSeries at {t.target}, elems(target.ScrapeStatus.lastSeries) at {},
+           gLastProbe, tkestack.io/kvass/pkg/scrape.StatisticsSeriesResult.* at {}, net/url.URL.* at {}, gClock
+@*/
